@@ -217,7 +217,7 @@ def init_worker():
     _SNAP["defaults"] = copy.deepcopy(Configuration.defaults)
     _SNAP["schema"] = ScenarioOutline.annotation_schema
     _SNAP["cafs"] = Scenario.continue_after_failed_step
-    _SNAP["tep"] = getattr(TagExpressionProtocol, "_current", None)
+    _SNAP["tep"] = TagExpressionProtocol.current()      # public API only
     root = logging.getLogger()
     _SNAP["log"] = (list(root.handlers), root.level)
     _SNAP["env"] = {k: os.environ.get(k) for k in ("HOME", "BEHAVE_STAGE", "BEHAVE_COLOR", "APPDATA")}
@@ -233,14 +233,7 @@ def reset_state():
     Configuration.defaults = copy.deepcopy(_SNAP["defaults"])
     ScenarioOutline.annotation_schema = _SNAP["schema"]
     Scenario.continue_after_failed_step = _SNAP["cafs"]
-    if _SNAP["tep"] is None:
-        if "_current" in TagExpressionProtocol.__dict__:
-            try:
-                delattr(TagExpressionProtocol, "_current")
-            except Exception:
-                TagExpressionProtocol.use(TagExpressionProtocol.DEFAULT)
-    else:
-        TagExpressionProtocol.use(_SNAP["tep"])
+    TagExpressionProtocol.use(_SNAP["tep"])
     from behave.formatter import _registry as _freg
     for k in [k for k in dict.keys(_freg._formatter_registry) if k not in _SNAP["formatters"]]:
         dict.pop(_freg._formatter_registry, k, None)       # aliases registered by [behave.formatters]
